@@ -117,8 +117,14 @@ func c01Case(r *fw.Rand, index string) fw.Case {
 		case 0, 1, 2, 3:
 			ops = append(ops, "w "+batch())
 		case 4:
-			ops = append(ops, "snap")
-			files++
+			if r.Intn(4) == 0 {
+				// a snapshot attempt that fails: retried by the next one, together with
+				// what is written in between
+				ops = append(ops, "snapfail")
+			} else {
+				ops = append(ops, "snap")
+				files++
+			}
 		case 5:
 			if files >= 2 {
 				a := r.Intn(files - 1)
